@@ -119,6 +119,8 @@ def check_role_fn(chk, m, fn, role, cfg):
         i.op not in ("store", "atomicrmw", "cmpxchg", "call") or i.is_dbg() or (i.op == "call" and (i.callee or "").startswith("llvm."))
         for i in fn.real_insts() if fn.in_cycle(i))
     ps = paths.enumerate_paths(fn, m, loop_bound=1 if spin_only else None)
+    # branch-free code (x - (L & -(x >= L))) is analysed as the branches it stands for
+    ps = [q for p_ in ps for q in paths.expand_selects(p_)]
     n_success = 0
     for p in ps:
         if paths.is_assert_fail_path(p):
